@@ -30,7 +30,13 @@ def run(rep, tier):
                "driver from the counting wrapper's own records; TLC checks provenance, counters, status protocol, ordering and budget arithmetic",
                "the budget clause is evaluated for runs whose solver parameters are at their defaults",
                "gradient-sampling solvers are made reproducible through the NANO_VERIF default seed hook",
-               "the constrained solvers (penalty, augmented Lagrangian) run on unconstrained functions in the sweep and on functions with constraints through C05's driver (Solve records validated against PenaltyTrace.tla: return contract, counters, budget of max_outer_iters inner solves each within max_evals + 1100 + 8 n)")
+               "the three constrained solvers (linear / quadratic penalty, augmented Lagrangian) are not registered in solver_t::all(), so the sweep "
+               "never runs them: they run through C05's driver, on functions with constraints (hand-made sets, linear / quadratic programs converted "
+               "by nano::make_function, planted empty feasible sets) and on functions with NO constraint at all, with their outer-loop parameters "
+               "drawn in their domains in half of the runs (Solve records validated against PenaltyTrace.tla: return contract, counters, budget of "
+               "max_outer_iters inner solves each within max_evals + 1100 + 8 n)",
+               "the counting wrapper is not always fresh: in a third of the runs it has been evaluated a few times before minimize() (its own log is "
+               "then read from the call of minimize() on), so counts reported by the state that include earlier evaluations are over-reports")
 
 
 def constrained_solvers(rep, tier):
@@ -50,12 +56,13 @@ def constrained_solvers(rep, tier):
         rs = [x for x in rs if x["e"] == "Solve"]
         acc, rejects, _ = trace.validate_independent("PenaltyTrace", "PenaltyTrace.cfg", os.path.join(common.SPEC, "penalty"), rs, out + ".tlc",
                                                      tag="c02c_%d" % i)
-        return crashed, o, bad, acc, rejects
+        return crashed, o, bad, acc, rejects, sum(1 for x in rs if x.get("ncons") == 0 and x["case"] >= 0)
 
     with ThreadPoolExecutor(nproc) as ex:
         results = list(ex.map(drive, range(nproc)))
-    total = 0
-    for crashed, o, bad, acc, rejects in results:
+    total = nfree = 0
+    for crashed, o, bad, acc, rejects, n0 in results:
+        nfree += n0
         if crashed:
             rep.violation("constrained-solver driver crashed", payload={"output": o[-3000:]})
         for b in bad[:3]:
@@ -63,6 +70,9 @@ def constrained_solvers(rep, tier):
         for ev in rejects:
             rep.violation("constrained solver violates the minimiser contract: %s" % str(ev)[:600], payload=ev)
         total += acc
+    if not rep.violations and nfree < 20:
+        raise CheckError("constrained solvers: only %d runs on functions without constraints" % nfree)
+    rep.add(constrained_solver_runs_without_constraints=nfree)
     return total
 
 
